@@ -181,7 +181,7 @@ Proof.
     destruct (resched_fields s a n created ttl) as (F1 & F2 & _).
     split; [|auto].
     destruct (resched_cases s a n created ttl) as [[cur [_ [_ E]]]|[[cur [_ [_ E]]]|[_ E]]]; rewrite E.
-    + exact Hr.
+    + exact Hr.  (* retimed_for changes neither the armed timer nor sc_min_next *)
     + apply rate_inv_push. exact Hr.
     + apply rate_inv_push. exact Hr.
   - apply ptr_step in H as [-> ->].
@@ -522,38 +522,87 @@ Qed.
 (** * 6. no_churn                                                       *)
 (* ================================================================== *)
 
-Lemma push_neq s0 s a n ttl ex w : sc_fresh s0 = sc_fresh s -> push s0 a n ttl ex w <> s.
+Lemma push_fresh_neq s0 s1 a n ttl ex w : sc_fresh s0 = sc_fresh s1 -> push s0 a n ttl ex w <> s1.
 Proof.
   intros Hf E. destruct (push_fields s0 a n ttl ex w) as (_ & _ & P3 & _). rewrite E in P3. lia.
 Qed.
 
-(* reschedule_ptr_first_refresh leaves the scheduler untouched exactly when the alias already has a
-   registered query whose time is within sc_delay of the new refresh time created + 75% ttl *)
+(* reschedule_ptr_first_refresh keeps the schedule exactly when the alias already has a registered query whose
+   time is within sc_delay of the new refresh time created + 75% ttl; the result is then the old scheduler with
+   that one entry re-timed (new ttl and expiry; same ids, times, heap order, alias table, fresh counter and
+   armed timer), and in no other case is the result of that form (a new entry is pushed: sc_fresh grows) *)
 Theorem no_churn : forall s a n created ttl,
-  reschedule_ptr_first_refresh s a n created ttl = s <->
-  exists cur, registered_query s a = Some cur /\
-              Z.abs (created + 750 * ttl - sq_when cur) <= sc_delay s.
+  (exists cur, registered_query s a = Some cur /\
+               Z.abs (created + 750 * ttl - sq_when cur) <= sc_delay s) <->
+  (exists id, d_get text_eqb (sc_by_alias s) a = Some id /\ find_id (sc_heap s) id <> None /\
+     reschedule_ptr_first_refresh s a n created ttl =
+       with_heap_alias_fresh s (retime_id (sc_heap s) id ttl (created + 1000 * ttl)) (sc_by_alias s) (sc_fresh s)).
 Proof.
   intros s a n created ttl.
+  assert (Hreg : forall cur, registered_query s a = Some cur ->
+            dget (sc_by_alias s) a = Some (sq_id cur) /\ find_id (sc_heap s) (sq_id cur) = Some cur).
+  { intros cur Hr. unfold registered_query in Hr.
+    destruct (dget (sc_by_alias s) a) as [id|]; [|discriminate].
+    destruct (find_id_some _ _ _ Hr) as [_ Hid]. subst id. auto. }
   destruct (resched_cases s a n created ttl) as [[cur [Hr [Hw E]]]|[[cur [Hr [Hw E]]]|[Hr E]]]; rewrite E.
-  - split; [intros _; exists cur; split; [exact Hr|lia]|reflexivity].
+  - destruct (Hreg cur Hr) as [Hg Hf]. split.
+    + intros _. exists (sq_id cur). split; [exact Hg|]. split; [congruence|reflexivity].
+    + intros _. exists cur. split; [exact Hr|lia].
   - split.
-    + intro Hp. exfalso. eapply push_neq; [|exact Hp]. reflexivity.
     + intros [cur' [Hr' Hw']]. rewrite Hr in Hr'. inversion Hr'; subst cur'. exfalso. apply Hw. lia.
+    + intros [id [_ [_ Hp]]]. exfalso. eapply push_fresh_neq; [|exact Hp]. reflexivity.
   - split.
-    + intro Hp. exfalso. eapply push_neq; [|exact Hp]. reflexivity.
     + intros [cur' [Hr' _]]. congruence.
+    + intros [id [_ [_ Hp]]]. exfalso. eapply push_fresh_neq; [|exact Hp]. reflexivity.
 Qed.
 
-(* in a well-formed state "registered" means: the live query of that alias *)
-Corollary no_churn_live : forall s a n created ttl, WF s ->
-  (reschedule_ptr_first_refresh s a n created ttl = s <->
-   exists cur, live s cur /\ sq_alias cur = a /\
-               Z.abs (created + 750 * ttl - sq_when cur) <= sc_delay s).
+(* in the no-churn case the registered query of the alias takes over ttl and expiry of the refreshed record and
+   keeps everything else (no well-formedness needed) *)
+Corollary no_churn_takes_ttl : forall s a n created ttl cur,
+  registered_query s a = Some cur ->
+  Z.abs (created + 750 * ttl - sq_when cur) <= sc_delay s ->
+  exists cur', registered_query (reschedule_ptr_first_refresh s a n created ttl) a = Some cur' /\
+    sq_ttl cur' = ttl /\ sq_expire cur' = created + 1000 * ttl /\
+    sq_when cur' = sq_when cur /\ sq_id cur' = sq_id cur /\
+    sq_alias cur' = sq_alias cur /\ sq_name cur' = sq_name cur /\ sq_cancelled cur' = sq_cancelled cur.
 Proof.
-  intros s a n created ttl Hwf. rewrite no_churn. split; intros [cur H]; exists cur.
-  - destruct H as [Hr Hw]. apply (registered_query_live _ _ _ Hwf) in Hr. tauto.
-  - destruct H as [Hl [Ha Hw]]. split; [apply registered_query_live; auto|exact Hw].
+  intros s a n created ttl cur Hr Hw.
+  destruct (resched_cases s a n created ttl) as [[cur' [Hr' [Hw' E]]]|[[cur' [Hr' [Hw' E]]]|[Hr' E]]].
+  - rewrite Hr in Hr'. inversion Hr'; subst cur'. rewrite E.
+    exists (set_ttl_expire cur ttl (created + 1000 * ttl)).
+    rewrite registered_query_retimed_for, Hr. cbn [option_map]. rewrite retimed_same.
+    repeat split.
+  - rewrite Hr in Hr'. inversion Hr'; subst cur'. exfalso. apply Hw'. lia.
+  - congruence.
+Qed.
+
+(* in a well-formed state "registered" means: the live query of that alias; it stays live, re-timed *)
+Corollary no_churn_live : forall s a n created ttl, WF s ->
+  ((exists cur, live s cur /\ sq_alias cur = a /\
+                Z.abs (created + 750 * ttl - sq_when cur) <= sc_delay s) <->
+   (exists cur, live s cur /\ sq_alias cur = a /\
+      reschedule_ptr_first_refresh s a n created ttl = retimed_for s (sq_id cur) ttl (created + 1000 * ttl) /\
+      live (reschedule_ptr_first_refresh s a n created ttl) (set_ttl_expire cur ttl (created + 1000 * ttl)))).
+Proof.
+  intros s a n created ttl Hwf. split.
+  - intros [cur (Hl & Ha & Hw)].
+    assert (Hr : registered_query s a = Some cur) by (apply registered_query_live; auto).
+    destruct (resched_cases s a n created ttl) as [[cur' [Hr' [Hw' E]]]|[[cur' [Hr' [Hw' E]]]|[Hr' E]]].
+    + rewrite Hr in Hr'. inversion Hr'; subst cur'. exists cur.
+      split; [exact Hl|]. split; [exact Ha|]. split; [exact E|].
+      rewrite E. apply live_retimed_for. exists cur. split; [exact Hl|]. symmetry. apply retimed_same.
+    + rewrite Hr in Hr'. inversion Hr'; subst cur'. exfalso. apply Hw'. lia.
+    + congruence.
+  - intros [cur (Hl & Ha & E & _)].
+    assert (Hr : registered_query s a = Some cur) by (apply registered_query_live; auto).
+    exists cur. split; [exact Hl|]. split; [exact Ha|].
+    assert (Hn : exists cur', registered_query s a = Some cur' /\
+                   Z.abs (created + 750 * ttl - sq_when cur') <= sc_delay s).
+    { apply (no_churn s a n created ttl).
+      unfold registered_query in Hr. destruct (dget (sc_by_alias s) a) as [id|] eqn:Eg; [|discriminate].
+      destruct (find_id_some _ _ _ Hr) as [_ Hid]. subst id.
+      exists (sq_id cur). split; [reflexivity|]. split; [congruence|exact E]. }
+    destruct Hn as [cur' [Hr' Hw']]. rewrite Hr in Hr'. inversion Hr'; subst cur'. exact Hw'.
 Qed.
 
 (* ================================================================== *)
@@ -598,6 +647,14 @@ Proof.
   destruct (sq_id y =? id); [reflexivity|]. apply H2; assumption.
 Qed.
 
+Lemma silent_retimed_for c s id ttl ex : silent_inv c s -> silent_inv c (retimed_for s id ttl ex).
+Proof.
+  intros [H1 H2]. split; [exact H1|]. unfold retimed_for. sfields.
+  intros x Hx E. apply retime_id_in in Hx as [y [Hy ->]].
+  destruct (retimed_fields id ttl ex y) as (Fid & _ & _ & Fc & _). rewrite Fid in E. rewrite Fc.
+  apply H2; assumption.
+Qed.
+
 Lemma silent_step types c s l s' out :
   silent_inv c s -> sstep types false s l = Some (s', out) -> silent_inv c s'.
 Proof.
@@ -610,7 +667,7 @@ Proof.
       split; [lia|]. intros x Hx E. destruct (G2 x Hx) as [Hin|Hid]; [apply H2; assumption|lia].
   - apply ptr_step in H as [-> _].
     destruct (resched_cases s a n created ttl) as [[cur [_ [_ E]]]|[[cur [_ [_ E]]]|[_ E]]]; rewrite E.
-    + exact Hs.
+    + apply silent_retimed_for. exact Hs.
     + apply silent_push. apply silent_cancelled_for. exact Hs.
     + apply silent_push. exact Hs.
   - apply ptr_step in H as [-> _]. unfold cancel_ptr_refresh.
@@ -1118,6 +1175,7 @@ Print Assumptions cancelled_silent.
 Print Assumptions cancel_marks_exactly.
 Print Assumptions resched_marks_exactly.
 Print Assumptions no_churn.
+Print Assumptions no_churn_takes_ttl.
 Print Assumptions no_churn_live.
 Print Assumptions two_pointers.
 Print Assumptions two_pointers_sdrive.
